@@ -57,10 +57,10 @@ func (C04) Generate(r *core.Rand, tier string, idx int) *core.Scenario {
 type c04Ledger struct {
 	e *Env
 	// per mailbox name
-	validity map[string][]uint32            // every UIDVALIDITY observed, in observation order (distinct consecutive)
-	owner    map[string]map[uint32]int      // key name|validity -> uid -> marker
-	maxUID   map[string]uint32              // key name|validity -> highest uid ever seen
-	uidNext  map[string]uint32              // key name|validity -> highest UIDNEXT ever seen
+	validity map[string][]uint32       // every UIDVALIDITY observed, in observation order (distinct consecutive)
+	owner    map[string]map[uint32]int // key name|validity -> uid -> marker
+	maxUID   map[string]uint32         // key name|validity -> highest uid ever seen
+	uidNext  map[string]uint32         // key name|validity -> highest UIDNEXT ever seen
 }
 
 func newLedger(e *Env) *c04Ledger {
